@@ -1,7 +1,7 @@
 SPECIFICATION Spec
 CONSTANTS
   HDR = 11
-  HSBODY = 60
+  HSBODY = 81
   BUFSZ = 8192
   Buffered = TRUE
   Plans <- ProbePlans
